@@ -1,4 +1,4 @@
-\* C03, every environment action together with every message class and both connection types: bans,
+\* C03, every environment action together with every message class and both connection types: bans of every kind, the clean-up tick,
 \* black- and whitelist entries of every shape persisted in the shared storage, the IPManager re-created
 \* from it, clients whose stored secret this server cannot decrypt (every record shape; responses under
 \* the right key and under the empty key), secrets reset after they were handed out, expiry, binding.
@@ -10,7 +10,7 @@ CONSTANTS
   MaxFail = 3
   MaxCtl = 0
   Faults = {}
-  Ops = {"Msg", "Ban", "Blacklist", "Whitelist", "Reload", "Corrupt", "Rekey", "Delete", "Expire", "Bind"}
+  Ops = {"Msg", "Ban", "BanKinds", "Unban", "Cleanup", "Blacklist", "Whitelist", "Reload", "Corrupt", "Rekey", "Delete", "Expire", "Bind"}
   Types = {"control", "tunnel"}
   PreAccept = TRUE
   Fixes = @@FIXES@@
